@@ -173,6 +173,7 @@ def make(seed):
     st.runs = 0
     st.nev = 0
     st.broken = False
+    st.removed = False     # some breakpoint address has lost its last callback (its forced split was withdrawn)
     st.last = None
     st.cbs = {}
     for k in KINDS:
@@ -290,6 +291,7 @@ def apply(st, ev):
         if known:
             for old in st.reg.pop(a):
                 st.meta.pop((a, old), None)
+            st.removed = True
     elif k == "rm_cb":
         kind = ev[1]
         jit.remove_breakpoints_by_callback(st.cbs[kind])
@@ -308,6 +310,7 @@ def _model_remove_cb(st, kind):
             st.meta.pop((a, kind), None)
             if not st.reg[a]:
                 del st.reg[a]
+                st.removed = True
 
 
 def _skel(st, a):
@@ -477,7 +480,7 @@ def canon(st):
     return (st.pname, st.backend, st.maxline, st.phase, st.pos, tuple(sorted(st.pending)),
             tuple(sorted((a, tuple(v)) for a, v in st.reg.items())),
             tuple(sorted(st.jit.jit.offset_to_jitted_func.keys())), tuple(sorted(st.jit.jit.split_dis)),
-            min(st.runs, 3), st.broken and st.nev)
+            min(st.runs, 3), st.removed, st.broken and st.nev)
 
 
 def outcome(st, ev):
